@@ -666,6 +666,65 @@ func (st *signedTape) forgeries(w *Worker, rig *Rig, res *Result, c Case) int {
 			return n
 		}
 	}
+	// validly signed records, untouched, with ADDITIONAL unsigned PAX records on the wrapper header (without encryption the wrapper is
+	// plain): whatever is accepted must still be exactly the signed header
+	if st.cfg.Enc == "" {
+		extras := []map[string]string{
+			{"STFS.ReplacesName": "/docs/other.txt"},
+			{"STFS.Action": "DELETE"},
+			{"STFS.Action": "UPDATE", "STFS.ReplacesContent": "true", "STFS.UncompressedSize": "1"},
+			{"STFS.Version": "2", "comment": "x"},
+			{"path": "/evil-path", "size": "1"},
+		}
+		for ei, extra := range extras {
+			for i, rc := range st.recs {
+				if rc.Embedded == "" || rc.SigRec == "" || (i+ei)%2 == 1 {
+					continue
+				}
+				withExtra := func(outer *tar.Header) *tar.Header {
+					h := *outer
+					h.PAXRecords = map[string]string{}
+					for k, v := range outer.PAXRecords {
+						h.PAXRecords[k] = v
+					}
+					for k, v := range extra {
+						h.PAXRecords[k] = v
+					}
+					h.Format = tar.FormatPAX
+					return &h
+				}
+				var keys []string
+				for k := range extra {
+					keys = append(keys, k)
+				}
+				sort.Strings(keys)
+				// in place
+				img := rewriteTape(st.img, st.recs, func(j int, outer *tar.Header, content []byte) ([]*tar.Header, [][]byte) {
+					if j == i {
+						return []*tar.Header{withExtra(outer)}, [][]byte{content}
+					}
+					return []*tar.Header{outer}, [][]byte{content}
+				})
+				res.count("extra_wrapper_record_forgeries", 1)
+				if !try(fmt.Sprintf("signed record %d untouched but with extra unsigned wrapper records %v, in place", i, keys), img) {
+					return n
+				}
+				// replayed at the end
+				var buf bytes.Buffer
+				tw := tar.NewWriter(&buf)
+				h := withExtra(rc.Outer)
+				content := st.img[rc.ContentOff : rc.ContentOff+rc.ContentLen]
+				h.Size = int64(len(content))
+				if err := tw.WriteHeader(h); err == nil {
+					_, _ = tw.Write(content)
+					_ = tw.Close()
+					if !try(fmt.Sprintf("signed record %d replayed at the end with extra unsigned wrapper records %v", i, keys), append(append([]byte(nil), st.img...), buf.Bytes()...)) {
+						return n
+					}
+				}
+			}
+		}
+	}
 	// unsigned records appended by a plain tar writer
 	for _, variant := range []string{"plain", "with STFS records", "embedded header only"} {
 		var buf bytes.Buffer
@@ -785,6 +844,6 @@ func (st *signedTape) forgeAs(tgt TapeRec, imp impersonation) (string, []byte, b
 func init() {
 	register(&Engine{Name: "tamper", Props: []string{"C08"}, Cases: tamperCases, Run: tamperRun})
 	propMeta["C08"] = PropMeta{Level: "exploration",
-		Rule:        "per tape (8 calls: mkdir, files with content, chmod, empty file, rename, remove) written under a signature format x encryption x compression: (flips) EVERY byte position of the tape is altered with each mask in {0x01,(0x80,)0xFF}, sharded over the cases; (forgeries) edited embedded header in place and appended, each with kept / removed / empty / non-base64 / base64-garbage / re-encoded / truncated / other record's signature, swapped signatures, replaced content with recomputed size, content of another signed record, records signed by a second key pair appended and prepended, records signed by that second key whose header and content signatures are relabelled to name the recipient's key as issuer (pgp: primary key, each subkey, no issuer; minisign: the recipient's key id), unsigned records by a plain tar writer; for every altered tape the real recovery.Index, recovery.Query and recovery.Fetch (at every pristine record position and every position the resulting index points to) run with the real verifier: every header they accept must equal, field for field incl. PAX records, a header the legitimate writer signed, and every successful Fetch must return exactly the bytes signed under that header; non-trivial = at least 100 alterations (flips) / 8 forgeries; distinct = distinct case",
+		Rule:        "per tape (8 calls: mkdir, files with content, chmod, empty file, rename, remove) written under a signature format x encryption x compression: (flips) EVERY byte position of the tape is altered with each mask in {0x01,(0x80,)0xFF}, sharded over the cases; (forgeries) edited embedded header in place and appended, each with kept / removed / empty / non-base64 / base64-garbage / re-encoded / truncated / other record's signature, swapped signatures, replaced content with recomputed size, content of another signed record, records signed by a second key pair appended and prepended, records signed by that second key whose header and content signatures are relabelled to name the recipient's key as issuer (pgp: primary key, each subkey, no issuer; minisign: the recipient's key id), validly signed records left untouched but carrying additional unsigned PAX records on their (unencrypted) wrapper header - STFS.ReplacesName, STFS.Action, STFS.ReplacesContent/UncompressedSize, path/size - in place and replayed at the end, unsigned records by a plain tar writer; for every altered tape the real recovery.Index, recovery.Query and recovery.Fetch (at every pristine record position and every position the resulting index points to) run with the real verifier: every header they accept must equal, field for field incl. PAX records, a header the legitimate writer signed, and every successful Fetch must return exactly the bytes signed under that header; non-trivial = at least 100 alterations (flips) / 8 forgeries; distinct = distinct case",
 		Assumptions: []string{"replay, reordering and truncation of validly signed records are outside the statement and are not flagged", "with encryption on, forgeries are encrypted to the recipient's public key (which an attacker has)"}}
 }
